@@ -39,7 +39,7 @@ def WFD (d : Dict σ) : Prop := (keys d).Nodup
 
 /-- What can come out of `Style.parse` other than a style. -/
 inductive PErr where
-  | syntax   -- errors.StyleSyntaxError
+  | syntaxError   -- errors.StyleSyntaxError
   | other    -- any other exception escaping Style.parse (propagated unchanged by the callers)
 deriving Repr, BEq, DecidableEq
 
@@ -233,7 +233,7 @@ def getStyle1 (parse : Parse σ) (st : Stack σ) : NS σ → Except GErr σ
   | .str n =>
     match resolve parse st n with
     | .ok s => .ok s
-    | .error .syntax => .error .missingStyle
+    | .error .syntaxError => .error .missingStyle
     | .error .other => .error .other
 
 /-- `Console.get_style(name, default=…)` (console.py:984-1010). -/
@@ -244,7 +244,7 @@ def getStyle (parse : Parse σ) (st : Stack σ) (name : NS σ) (default : Option
     match resolve parse st n with
     | .ok s => .ok s
     | .error .other => .error .other
-    | .error .syntax =>
+    | .error .syntaxError =>
       match default with
       | none => .error .missingStyle
       | some d => getStyle1 parse st d            -- `return self.get_style(default)`
